@@ -495,6 +495,10 @@ func EdgeFacts(b *ssa.BasicBlock, idx int) []Fact {
 	if n := len(curSuffix); n > 0 && curSuffix[n-1] == b {
 		// inside a path search: resolve phis along the path that led here
 		if fs, feasible := FactsOnPath(ifi.Cond, idx == 0, curSuffix); feasible {
+			// several tests of one enum-like local along the path can pin down the edge it came from
+			if extra := EnumRefine(append(append([]Fact{}, fs...), PathFacts(curSuffix)...)); len(extra) > 0 {
+				fs = append(fs, extra...)
+			}
 			return fs
 		}
 	}
